@@ -410,29 +410,38 @@ func (e *cacheEnv) stateFor(n *pb.Notification) *cacheState {
 	return st
 }
 
-// culprit finds, for a multi-part notification that panicked, the single part
-// that reproduces the same kind of failure on its own (through the same
-// guarded call), first against a fresh cache in the trial's kind of state and
-// then against an empty one. It returns that part and the state it failed in;
-// if no single part reproduces the failure, the whole message and its state.
+// culprit finds, for a multi-part notification that panicked, the part at
+// which the same kind of failure recurs when the parts are replayed one by
+// one, in processing order, as single-part notifications (through the same
+// guarded call) -- first against a fresh cache in the trial's kind of state,
+// then against an empty one. It returns that part and the state it failed in
+// (which includes the effect of the earlier parts); if the failure does not
+// recur that way, the whole message and its state.
 func (ct *cacheTrial) culprit(n *pb.Notification, st *cacheState, pi *panicInfo) (*pb.Notification, *cacheState, string) {
-	for i, sp := range singleParts(n) {
-		for _, variant := range []string{ct.env.kind, "empty"} {
-			var env *cacheEnv
-			if guard(func() { env = buildState(variant, rand.New(rand.NewSource(1)), baseTS-2*int64(time.Second)) }) != nil {
-				continue
-			}
+	parts := singleParts(n)
+	if len(parts) == 0 {
+		return n, st, ""
+	}
+	for _, variant := range []string{ct.env.kind, "empty"} {
+		var env *cacheEnv
+		if guard(func() { env = buildState(variant, rand.New(rand.NewSource(1)), baseTS-2*int64(time.Second)) }) != nil {
+			continue
+		}
+		for i, sp := range parts {
 			if env.snapshot() != nil {
-				continue
+				break
 			}
 			sst := env.stateFor(sp)
 			c := proto.Clone(sp).(*pb.Notification)
-			p2 := guard(func() { env.c.GnmiUpdate(c) })
-			env.close()
-			if p2 != nil && p2.Kind == pi.Kind {
-				return sp, sst, fmt.Sprintf("part %d of the message reproduces it alone on a fresh %q cache: %s", i, variant, ptext(sp))
+			if p2 := guard(func() { env.c.GnmiUpdate(c) }); p2 != nil {
+				if p2.Kind == pi.Kind {
+					env.close()
+					return sp, sst, fmt.Sprintf("replaying the parts one by one on a fresh %q cache, part %d fails the same way: %s", variant, i, ptext(sp))
+				}
+				break
 			}
 		}
+		env.close()
 	}
 	return n, st, ""
 }
